@@ -256,9 +256,15 @@ func init() {
 				Bound: "every graph built by <=3 gadget insertions (shapes with up to 13 edges) x {greedy,dfs} x {ns,lp} x valign x per-node sizes"},
 			{Name: "seeds", Space: spaceSeeded(seedWitnesses, tierPick(tier, 1, 2)), Eval: stdEval("C03", staticGrid(cheap), or),
 				Bound: "all states within 1 (thorough 2) edit operations of the recorded witnesses"},
+			{Name: "DS7", Space: spaceBothOrders(spaceDS(7, 9, tierPick(tier, 10, 12))), Eval: stdEval("C03", staticGrid(gridSpec{P1: []int{0}, P2: []int{0}, P4: []int{1}, P5: []int{0}, SZ: []int{1}}.list()), or),
+				Bound: fmt.Sprintf("every connected simple DAG on 7 topologically labelled nodes with 9..%d edges, edge list in lexicographic and in reverse order (where the simplex pivots more than once) x ns layering", tierPick(tier, 10, 12))},
+			{Name: "parallel-chains", Space: spaceList(thetaFamilies(tierPick(tier, 5, 4), tier == "thorough")), Eval: stdEval("C03", staticGrid(gridSpec{P1: []int{0}, P2: allP2, P4: []int{1}, P5: []int{0}, SZ: []int{1}}.list()), or),
+				Bound: "two paths with 1..5 edges each (thorough: three with 1..4) between a top and a bottom node + at most one extra node attached by two edges at every pair of nodes, 10 edge-list orders each x {ns,lp}"},
 		}
 		if tier == "thorough" {
 			ps = append(ps,
+				&Pass{Name: "DS8", Space: spaceBothOrders(spaceDS(8, 10, 11)), Eval: stdEval("C03", staticGrid(gridSpec{P1: []int{0}, P2: []int{0}, P4: []int{1}, P5: []int{0}, SZ: []int{1}}.list()), or),
+					Bound: "every connected simple DAG on 8 topologically labelled nodes with 10..11 edges, 2 edge orders x ns layering"},
 				&Pass{Name: "G6-cheap-tail", Space: spaceG(6, 6, 0, nil), Eval: stdEval("C03", staticGrid(gridSpec{P1: allP1, P2: allP2, P4: []int{1}, P5: []int{0}, SZ: []int{2}}.list()), or),
 					Bound: "all edge lists with 6 edges x {greedy,dfs} x {ns,lp} x valign x per-node sizes"},
 				&Pass{Name: "G7n4-cheap-tail", Space: spaceG(7, 7, 4, nil), Eval: stdEval("C03", staticGrid(gridSpec{P1: allP1, P2: allP2, P4: []int{1}, P5: []int{0}, SZ: []int{2}}.list()), or),
